@@ -127,7 +127,8 @@ BODY: List[Tuple[str, str, List[str], List[str], str]] = [
      "Definition g_new (r : reg) (x : orec) (i : idx) : reg := g_add_node r (g_wrap x i)."),
     (EN, "_get_domain_source_from_domain_and_type_values", ["domain", "type_"],
      ["if is_iterable(domain):\n    domain = filter(lambda x: isinstance(x, type_), domain)\n"
-      "elif domain is None and issubclass(type_, Symbol):\n    domain = SymbolGraph().get_instances_of_type(type_)",
+      "elif domain is None and issubclass(type_, Symbol):\n"
+      "    return From(SymbolGraph().get_instances_of_type(type_), symbol_graph_type=type_)",
       "return From(domain)"], ""),
     (HD, "HashedIterable.__iter__", ["self"],
      ["index = 0",
@@ -146,12 +147,23 @@ BODY: List[Tuple[str, str, List[str], List[str], str]] = [
       "            break\n"
       "    else:\n"
       "        return"],
-     "(* let(T, None) + first complete evaluation by one consumer: sweep, enumerate the registry once, yield and cache every id once\n"
-     "   (replay by position, then one new element at a time, ids already cached skipped); later evaluations replay the cache *)\n"
-     "Definition g_eval_fresh (children : cls -> list cls) (fuel : nat) (L : list orec) (r : reg) (T : cls)\n"
-     "  : reg * list (option obj) * list obj :=\n"
-     "  let r' := g_sweep L r in let res := g_instances children fuel L r' T in (r', dedupo res, dedup (somes res)).\n"
-     "Definition g_eval_again (cache : list obj) : list (option obj) := map Some cache."),
+     "(* the domain of a domain-less variable, consumed one value at a time: the registry generator is walked lazily (rest of the\n"
+     "   snapshot of the class being walked, then the classes not reached yet, each wrapper dereferenced at its turn); the cache\n"
+     "   skips a value whose id it holds already and holds every value it passes on *)\n"
+     "Fixpoint g_pull_cur (L : list orec) (seen : list (option obj)) (cur : list wrapper) : option (option obj * list wrapper) :=\n"
+     "  match cur with\n"
+     "  | [] => None\n"
+     "  | w :: t => let v := g_deref L w in if existsb (oeqb v) seen then g_pull_cur L seen t else Some (v, t)\n"
+     "  end.\n"
+     "Fixpoint g_pull_classes (L : list orec) (r : reg) (seen : list (option obj)) (cs : list cls)\n"
+     "  : option (option obj * list wrapper * list cls) :=\n"
+     "  match cs with\n"
+     "  | [] => None\n"
+     "  | c :: cs' => match g_pull_cur L seen (filter (fun w => w_cls w =? c) (wl r)) with\n"
+     "                | Some (v, t) => Some (v, t, cs')\n"
+     "                | None => g_pull_classes L r seen cs'\n"
+     "                end\n"
+     "  end."),
 ]
 
 UPD_TARGETS = [
@@ -228,18 +240,47 @@ def translate(repo: str) -> str:
     if len(sweeping) != 1:
         raise Refuse(tree(SY).body[0], f"{len(sweeping)} evaluate() methods sweep the symbol graph (expected 1)", fn)
     st = _stmts(sweeping[0])
-    if [g for g, _ in st] != ["SymbolGraph().remove_dead_instances()",
-                              "for node in self._descendants_:\n    node._forget_evaluation_memory_()",
-                              "yield from map(self._process_result_, self._evaluate__())"]:
-        raise Refuse(sweeping[0], f"evaluate(): unexpected body {[g for g, _ in st]}", fn)
-    # the per-evaluation hook: in symbolic.py only the base class defines it, with an empty body -- a variable keeps the
-    # domain it cached across top-level evaluations (what EvalV on a cached variable models)
-    hooks = [(c, n) for c in tree(SY).body if isinstance(c, ast.ClassDef) for n in c.body
-             if isinstance(n, ast.FunctionDef) and n.name == "_forget_evaluation_memory_"]
-    if len(hooks) != 1 or hooks[0][0].name != "SymbolicExpression" or _stmts(hooks[0][1]):
-        where = hooks[-1][1] if hooks else tree(SY).body[0]
-        raise Refuse(where, "_forget_evaluation_memory_ is defined in " + str([c.name for c, _ in hooks]) +
-                     " (expected: only SymbolicExpression, empty body): a node of a let(T, None) query forgets state between evaluations", fn)
+    EVALUATE = [
+        "nodes = list(self._descendants_)",
+        "for variable in self._all_variable_instances_:\n    nodes.extend(variable._all_nodes_)",
+        "for node in nodes:\n    node._forget_evaluation_memory_()",
+        "SymbolGraph().remove_dead_instances()",
+        "try:\n    yield from map(self._process_result_, self._evaluate__())\n"
+        "finally:\n    for node in nodes:\n        if isinstance(node, Variable):\n            node._forget_evaluation_memory_()",
+    ]
+    if [g for g, _ in st] != EVALUATE:
+        for k, (g, node) in enumerate(st):
+            if k >= len(EVALUATE) or g != EVALUATE[k]:
+                raise Refuse(node, f"evaluate(): statement not in the idiom table: {g!r}", fn)
+        raise Refuse(sweeping[0], f"evaluate(): body has {len(st)} statements, the idiom has {len(EVALUATE)}", fn)
+    # the per-evaluation hook: in symbolic.py only the base class (empty body) and Variable define it; a variable whose
+    # domain is the symbol graph drops the domain it holds and binds a fresh, unstarted generator to the current graph
+    HOOK = [
+        "source = self._domain_source_",
+        "if source is not None and source.symbol_graph_type is not None:\n"
+        "    source.domain = SymbolGraph().get_instances_of_type(source.symbol_graph_type)\n"
+        "    self._domain_ = HashedIterable()\n"
+        "    self._update_domain_(source.domain)",
+    ]
+    hooks = {c.name: n for c in tree(SY).body if isinstance(c, ast.ClassDef) for n in c.body
+             if isinstance(n, ast.FunctionDef) and n.name == "_forget_evaluation_memory_"}
+    if sorted(hooks) != ["SymbolicExpression", "Variable"]:
+        raise Refuse(tree(SY).body[0], f"_forget_evaluation_memory_ is defined in {sorted(hooks)} "
+                                       "(expected: SymbolicExpression and Variable)", fn)
+    if _stmts(hooks["SymbolicExpression"]):
+        raise Refuse(hooks["SymbolicExpression"], "SymbolicExpression._forget_evaluation_memory_ is not empty", fn)
+    got = _stmts(hooks["Variable"])
+    if [g for g, _ in got] != HOOK:
+        for k, (g, node) in enumerate(got):
+            if k >= len(HOOK) or g != HOOK[k]:
+                raise Refuse(node, f"Variable._forget_evaluation_memory_: statement not in the idiom table: {g!r}", fn)
+        raise Refuse(hooks["Variable"], "Variable._forget_evaluation_memory_: statements missing", fn)
+    defs["evaluate"] = (
+        "(* a complete evaluation of a query over let(T, None): the variables forget, the graph is swept, the registry is enumerated NOW\n"
+        "   with every id once, and when the evaluation is over (finally) the variables forget again: nothing stays held *)\n"
+        "Definition g_eval (children : cls -> list cls) (fuel : nat) (L : list orec) (r : reg) (T : cls) : reg * list (option obj) :=\n"
+        "  let r' := g_sweep L r in (r', dedupo (g_instances children fuel L r' T)).\n"
+        "Definition g_held_after_eval : list obj := [].")
     # state-updating methods: composition of statement idioms, in source order
     upd_defs = {}
     for rel, qual, params, gname, sig, arg in UPD_TARGETS:
@@ -283,7 +324,8 @@ def translate(repo: str) -> str:
     for qual in ["SymbolGraph.remove_dead_instances", "recursive_subclasses", "WrappedInstance.__post_init__",
                  "WrappedInstance.instance", "SymbolGraph.get_instances_of_type", "SymbolGraph.get_wrapped_instance",
                  "SymbolGraph.ensure_wrapped_instance", "PredicateClassRelation.__post_init__",
-                 "PredicateClassRelation.add_to_graph", "SingletonMeta.clear_instance", "update_cache", "HashedIterable.__iter__"]:
+                 "PredicateClassRelation.add_to_graph", "SingletonMeta.clear_instance", "update_cache", "HashedIterable.__iter__",
+                 "evaluate"]:
         out.append(defs[qual])
     return "\n\n".join(out) + "\n"
 
